@@ -48,6 +48,16 @@ Fixpoint count_point (p : nat) (l : list ev) : nat :=
   | _ :: l' => count_point p l'
   end.
 Definition is_random (i : inj) : bool := match i with InjRandom => true | _ => false end.
+(* An idle-time Shutdown comes from ANOTHER goroutine: once the terminating channel is closed the Run thread (its schedule
+   points, its return) and the shutdown thread (the callbacks that shut the inner sources down) are concurrent, so the
+   relative order of their log entries is not determined. Each thread's own entries keep their order. *)
+Definition is_down (e : ev) : bool := match e with EDown _ => true | _ => false end.
+Definition log_eqb_for (i : inj) (a b : list ev) : bool :=
+  match i with
+  | InjIdle => log_eqb (filter (fun e => negb (is_down e)) a) (filter (fun e => negb (is_down e)) b) &&
+               log_eqb (filter is_down a) (filter is_down b)
+  | _ => log_eqb a b
+  end.
 
 (* run thread t until `stop` holds (checked before every step) or the fuel is used up; a blocked
    thread stutters, so extra steps are harmless *)
@@ -241,19 +251,19 @@ Definition model_ok (k : c12_case) : bool :=
   | KEternal sup i o =>
       is_random i ||
       (let s := et_model sup i in
-       log_eqb (rev (Et.log s)) (o_log o) && Bool.eqb (Et.returned s) (o_ret o) && Bool.eqb (Et.terminated s) (o_term o))
+       log_eqb_for i (rev (Et.log s)) (o_log o) && Bool.eqb (Et.returned s) (o_ret o) && Bool.eqb (Et.terminated s) (o_term o))
   | KJoining lf fa fs ls i o =>
       is_random i ||
       (let s := jn_model lf fa fs ls i in
-       log_eqb (rev (Jn.log s)) (o_log o) && Bool.eqb (Jn.returned s) (o_ret o) && Bool.eqb (Jn.terminated s) (o_term o))
+       log_eqb_for i (rev (Jn.log s)) (o_log o) && Bool.eqb (Jn.returned s) (o_ret o) && Bool.eqb (Jn.terminated s) (o_term o))
   | KSub blocks i o =>
       is_random i ||
       (let s := sb_model blocks i in
-       log_eqb (rev (Sb.log s)) (o_log o) && Bool.eqb (Sb.returned s) (o_ret o) && Bool.eqb (Sb.terminated s) (o_term o))
+       log_eqb_for i (rev (Sb.log s)) (o_log o) && Bool.eqb (Sb.returned s) (o_ret o) && Bool.eqb (Sb.terminated s) (o_term o))
   | KFile store stop i o =>
       is_random i ||
       (let s := fs_model store stop i in
-       log_eqb (rev (Fs.log s)) (o_log o) && Bool.eqb (Fs.returned s) (o_ret o) && Bool.eqb (Fs.terminated s) (o_term o))
+       log_eqb_for i (rev (Fs.log s)) (o_log o) && Bool.eqb (Fs.returned s) (o_ret o) && Bool.eqb (Fs.terminated s) (o_term o))
   | KMux n sup cmds o =>
       let s := mx_model n sup cmds in
       log_eqb (drop21 (rev (Mx.log s))) (drop21 (o_log o)) &&
